@@ -282,6 +282,9 @@ func registerHelpers(m *Module) {
 	for _, fn := range fns {
 		obj := fn.Object()
 		isInstance := fn.Origin() != nil && fn.Origin() != fn
+		if obj == nil && isInstance {
+			obj = fn.Origin().Object() // an instantiation carries no object of its own
+		}
 		if obj == nil || fn.Parent() != nil || (fn.Synthetic != "" && !isInstance) || obj.Exported() || fn.Name() == "init" || fn.Name() == "main" {
 			continue
 		}
